@@ -21,20 +21,23 @@ def restore_all(sess, desc):
             desc.append('final-restore(%s,%d)->%s' % (u, s, o.etype))
 
 
-def stale_knowledge(run, graphs, seeds):
+def stale_knowledge(run, graphs, seeds, wide=False, caches=('__private__', '__shared__', None)):
     """what a client has learned (its snapshot cache, anything it remembers) is made stale by ANOTHER client's delete / clean, then the
     first client snapshots the very same data again: the new snapshot must be complete although "it has seen those chunks before"."""
     from .. import harness, repodrv
     traces = []
     for g in graphs:
         for seed in seeds:
-            for cache in ('__private__', '__shared__', None):
+            for cache in caches:
                 with harness.scratch() as d:
                     c = str(d / 'shared-cache') if cache == '__shared__' else cache
                     s = repodrv.Session(g, d, seed=seed, cache=c)
                     r = s.rng
                     content = repodrv.Content(r, nblocks=6)
                     files = [s.write_file('k%d.bin' % i, content.make() + r.randbytes(200)) for i in range(3)]
+                    if wide:
+                        # a snapshot of realistic width: about a thousand chunks, a snapshot object of well over 64 KiB
+                        files.append(s.write_file('wide.bin', r.randbytes(46_000)))
                     desc = []
                     for owner in s.users:
                         o = s.snapshot(owner, files)
@@ -71,6 +74,7 @@ def main(run):
     traces += rc.histories(run, ['plain', 'shared'] if quick else rc.ALL_GRAPHS, range(run.seed * 100 + 90, run.seed * 100 + 90 + (1 if quick else 8)), 12 if quick else 25,
                            flavour='s3', post=restore_all)      # over the real S3 adapter, paged listings
     traces += stale_knowledge(run, ['shared', 'plain', 'mixed'] if quick else rc.ALL_GRAPHS, range(run.seed * 10, run.seed * 10 + (1 if quick else 4)))
+    traces += stale_knowledge(run, ['shared'] if quick else ['shared', 'mixed', 'chain'], range(run.seed * 10 + 7, run.seed * 10 + 8), wide=True, caches=('__private__',))
     rc.validate(run, traces, CLAUSES, label='c02.histories')
     run.coverage['rule'] = ('a case is one command history (key graph x seed), one stale-knowledge scenario (key graph x cache arrangement) or one replayed TLC behaviour; non-trivial = '
                             'more than 10 backend events / more than 2 replayed commands; distinct by the command sequence')
